@@ -84,7 +84,7 @@ _CONTRACTS = ["contract:array_2d_util.resized_array_2d_from", "contract:Abstract
               "contract:AbstractArray2D.padded_before_convolution_from",
               "contract:AbstractArray2D.trimmed_after_convolution_from", "contract:Mask2D.resized_from"]
 MIN_MONITORS = {"*": dict({c: 1 for c in _CONTRACTS},
-                          **{"resize.array": 1, "resize.mask": 1, "resize.geometry_kept": 1, "resize.coords_formula": 1,
+                          **{"resize.array": 1, "resize.mask": 1, "resize.nonfinite_border": 20, "resize.geometry_kept": 1, "resize.coords_formula": 1,
                              "resize.coords_grid": 1, "resize.grow_shrink": 1, "resize.mask_grow_shrink": 1,
                              "pad.embedding": 1, "pad.coords_formula": 1, "pad.coords_grid": 1, "padtrim.identity": 1,
                              "padtrim.mask_trimmed_array": 1, "trim.crop": 1, "trim.coords_formula": 1,
@@ -152,7 +152,7 @@ def match_resize(got_native, got_mask, native0, m, new, pad):
         return False
     for oy, ox in candidates(m.shape, new):
         ev, em = expected_resize(native0, m, new, oy, ox, pad)
-        if (got_native is None or np.array_equal(got_native, ev)) and (got_mask is None or np.array_equal(got_mask, em)):
+        if (got_native is None or np.array_equal(got_native, ev, equal_nan=True)) and (got_mask is None or np.array_equal(got_mask, em)):
             return True
     return False
 
@@ -231,7 +231,7 @@ def post_resized_array_2d(ctx, a, result, old):
     arr = arr.astype(float)
     pad = float(a["pad_value"])
     got = _np(result)
-    ok = tuple(got.shape) == new and any(np.array_equal(got, place(arr, new, oy, ox, pad)) for oy, ox in candidates(arr.shape, new))
+    ok = tuple(got.shape) == new and any(np.array_equal(got, place(arr, new, oy, ox, pad), equal_nan=True) for oy, ox in candidates(arr.shape, new))
     return ok, {"array_2d": arr, "resized_shape": new, "pad_value": pad, "got": got,
                 "expected_one_of": [place(arr, new, oy, ox, pad) for oy, ox in candidates(arr.shape, new)][:2]}
 
@@ -388,6 +388,21 @@ def resize_case(ctx, H, W, nH, nW, v):
         ctx.check(match_resize(None, gmm, native0, m, new, pad), "resize.mask", got_mask=gmm, admissible_offsets=candidates((H, W), new), **wit)
         ctx.check(geometry_of(MR) == (new, s, o), "resize.geometry_kept", how="Mask2D.resized_from", got=lambda: geometry_of(MR), **wit)
 
+    # non-finite values on the border of the input (NaN outside a detector footprint, inf where the exposure is zero): the padding
+    # of an enlargement is still exactly zero and every input pixel keeps its value
+    if nH >= H and nW >= W and new != (H, W) and (H + W + nH + nW + v) % 2 == 0:
+        v2 = vals.copy()
+        v2[0, :] = np.nan
+        v2[-1, -1] = np.inf
+        v2[:, 0] = -np.inf if W > 1 else v2[:, 0]
+        okn, Rn = ctx.guarded("resize.nonfinite_border", lambda: _np(aa.Array2D.no_mask(values=v2.copy(), pixel_scales=s, origin=o).resized_from(new_shape=new).native))
+        if okn:
+            good = False
+            for oy, ox in candidates((H, W), new):
+                ev = place(v2, new, oy, ox, 0.0)
+                if Rn.shape == ev.shape and np.array_equal(Rn, ev, equal_nan=True):
+                    good = True
+            ctx.check(good, "resize.nonfinite_border", got_native=Rn, input=v2, **wit)
     # enlarging then shrinking back loses nothing - in every parity combination
     G = (max(H, nH), max(W, nW))
     if G != (H, W):
